@@ -206,7 +206,7 @@ func c14ConcHarness(cached *gwHarness, want map[string]string, c1, c2 []int, ttl
 func init() {
 	Specs["C14"] = &Spec{
 		ID: "C14",
-		Rule: "sequential: every request history of length <=3 (thorough 4) over an alphabet of 31 operations built to collide in the cache key (pairs differing only in operation type, name, variable type, variable default, variable value, " +
+		Rule: "sequential: every request history of length <=3 over an alphabet of 31 operations (thorough: plus every history of length 4 over the 12 pairwise colliding operations and tick) built to collide in the cache key (pairs differing only in operation type, name, variable type, variable default, variable value, " +
 			"fragment body, named fragment type condition, alias, selected operation of a two-operation document, explicit vs injected id, variable present vs omitted, introspection by variable with two values, @skip on a field of another service driven by a variable with both values, one entity looked up twice with different selections, an operation the planner rejects, variable definitions that differ in a default or in the type of a variable used inside a custom scalar literal; one unrelated) plus `tick` (clock jumps past the TTL), for TTL in {0, 1s, 1h}; each history is replayed on a fresh caching gateway and on a plain twin under the virtual clock " +
 			"and every answer compared. concurrent: two clients with 1-2 requests each from the pool on one caching gateway (also with a clock jump past the TTL before the second client's request, so that the first one's request straddles the expiry), every schedule with <=1 (thorough 2) preemption at client granularity (RWMutex operations visible), each answer compared with the plain twin's; " +
 			"non-trivial = history with a repeated or colliding key",
@@ -222,7 +222,7 @@ func init() {
 		Scenarios: func(tier string) []Scenario {
 			depth, pb := 3, 1
 			if tier == "thorough" {
-				depth, pb = 4, 2
+				depth, pb = 3, 2 // length 4: see below
 			}
 			cached := newGWHarness(c14World, a.Config{Merger: "extend", Planner: "cached"})
 			plain := newGWHarness(c14World, a.DefaultConfig)
@@ -248,6 +248,40 @@ func init() {
 				}
 			}
 			rec(nil)
+			if tier == "thorough" {
+				// length 4 over the whole alphabet would be 3 million scenarios (the list alone exhausts the memory of 17 processes):
+				// every history of length <=3 over the whole alphabet, and every history of length 4 over the 12 operations that
+				// collide pairwise in the key (plus tick)
+				var short [][]int
+				for _, h := range hists {
+					if len(h) <= 3 {
+						short = append(short, h)
+					}
+				}
+				hists = short
+				core := map[string]bool{"q-both": true, "m-both": true, "named-A": true, "named-B": true, "var-Int": true, "var-Int-v2": true, "var-default-1": true, "var-default-2": true,
+					"frag-name": true, "frag-phone": true, "cross": true, "cross-with-id": true}
+				coreLetters := []int{-1}
+				for i, o := range c14Pool {
+					if core[o.Name] {
+						coreLetters = append(coreLetters, i)
+					}
+				}
+				var rec4 func(cur []int)
+				rec4 = func(cur []int) {
+					if len(cur) == 4 {
+						hists = append(hists, append([]int{}, cur...))
+						return
+					}
+					for _, l := range coreLetters {
+						if l < 0 && len(cur) == 0 {
+							continue
+						}
+						rec4(append(cur, l))
+					}
+				}
+				rec4(nil)
+			}
 			// histories are cheap single executions: group 200 of them into one scenario
 			for _, ttl := range []time.Duration{0, time.Second, time.Hour} {
 				ttl := ttl
